@@ -1868,6 +1868,9 @@ def replay(obj):
     logging.disable(logging.CRITICAL)
     r = obj.get('replay') or {}
     kind = r.get('kind')
+    if r.get('kind') in ('engine-explore', 'engine-trace', 'engine-rerun'):
+        from harness import engine_trace as _et     # engine-level replays (exploration, traces, rerun trees)
+        return _et.replay_case(obj)
     ctx = core.Ctx('C04', 'quick', obj.get('seed', 0))
     if kind == 'direct':
         c = {'spec': r['spec'], 'rows': r['rows'], 'rows_mode': 'run'}
